@@ -276,6 +276,9 @@ pub enum When {
     /// server slots: a first request has been answered (with a small response) BEFORE the client's SETTINGS
     /// arrive; they are then applied, and the attempt is made on a second request of the same connection
     AfterFirstExchange,
+    /// server slots: the client's SETTINGS and its request are both there before the server looks at the connection
+    /// for the first time, and the request is answered inline (`accept()` is not polled again before the answer)
+    Together,
     After,
     Never,
 }
@@ -410,6 +413,7 @@ pub fn send_run(c: &SendCase) -> SendOutcome {
         let (net2, res2, st2, go2, sent2, slot, hm2) = (net.clone(), res.clone(), state.clone(), go.clone(), sent.clone(), c.slot, hm.clone());
         let created2 = created.clone();
         let first_exchange = c.when == When::AfterFirstExchange;
+        let together = c.when == When::Together;
         let sp = ex.spawner();
         ex.spawn("main", async move {
             let mut b = h3::server::builder();
@@ -432,6 +436,31 @@ pub fn send_run(c: &SendCase) -> SendOutcome {
                 Ok(Some(r)) => r,
                 _ => return,
             };
+            if together {
+                // the sequential server loop: the request is handled before accept() is polled again
+                let r = async {
+                    let (_req, mut s) = resolver.resolve_request().await?;
+                    let mut resp = http::Response::builder().status(200).body(()).unwrap();
+                    if slot == Slot::Response {
+                        *resp.headers_mut() = hm2.clone();
+                    }
+                    s.send_response(resp).await?;
+                    if slot == Slot::ResponseTrailers {
+                        s.send_trailers(hm2.clone()).await?;
+                    }
+                    s.finish().await
+                }
+                .await;
+                *res2.borrow_mut() = match r {
+                    Ok(()) => "ok".into(),
+                    Err(e) => stream_class(&e),
+                };
+                *sent2.borrow_mut() = true;
+                let _ = conn.accept().await;
+                std::future::pending::<()>().await;
+                drop(conn);
+                return;
+            }
             // keep driving the connection (control stream) while the handler works
             sp.spawn("driver", async move {
                 let _ = conn.accept().await;
@@ -470,12 +499,20 @@ pub fn send_run(c: &SendCase) -> SendOutcome {
         ex.spawn("script", async move {
             let ctrl = if peer == CLIENT { CLIENT_CTRL } else { SERVER_CTRL };
             let settings = control_preamble(&rs::encode(&[(rs::MAX_FIELD_SECTION_SIZE, c.limit)]));
+            if c.when == When::Together {
+                // SETTINGS first, the request right behind them, nothing in between
+                net.raw_open(ctrl);
+                net.raw_write(peer, ctrl, &settings);
+            }
             if peer == CLIENT {
                 net.raw_open(0);
                 net.raw_write(CLIENT, 0, &rf::frame(rf::HEADERS, REQ_SECTION));
                 net.raw_fin(CLIENT, 0);
             }
             match c.when {
+                When::Together => {
+                    *go.borrow_mut() = true;
+                }
                 When::Before => {
                     net.raw_open(ctrl);
                     net.raw_write(peer, ctrl, &settings);
@@ -577,7 +614,7 @@ pub fn send_run(c: &SendCase) -> SendOutcome {
     SendOutcome {
         result,
         wire: net.wire(me, if c.when == When::AfterFirstExchange { 4 } else { 0 }),
-        applied: matches!(c.when, When::Before | When::Between | When::DuringOpen | When::AfterFirstExchange),
+        applied: matches!(c.when, When::Before | When::Between | When::DuringOpen | When::AfterFirstExchange | When::Together),
         close_calls: net.close_calls(me).iter().map(|c| c.0).collect(),
         panics: q.panics,
     }
@@ -596,7 +633,7 @@ pub fn judge_send(c: &SendCase, o: &SendOutcome) -> Vec<(String, String)> {
     for (t, p) in &o.panics {
         out.push((format!("C10:send:{slot}:panic@{}", explore::panics::short_loc(p)), format!("{ctx}: task {t} panicked: {p}")));
     }
-    let in_force = if matches!(c.when, When::Before | When::Between | When::DuringOpen | When::AfterFirstExchange) { c.limit } else { VARINT_MAX };
+    let in_force = if matches!(c.when, When::Before | When::Between | When::DuringOpen | When::AfterFirstExchange | When::Together) { c.limit } else { VARINT_MAX };
     // 1. nothing over the limit in force on the wire
     let (frames, _) = rf::segment(&o.wire);
     let heads: Vec<&rf::Frame> = frames.iter().filter(|f| f.ty == rf::HEADERS).collect();
@@ -640,7 +677,7 @@ pub fn judge_send(c: &SendCase, o: &SendOutcome) -> Vec<(String, String)> {
         }
     } else if o.result != "ok" {
         out.push((
-            format!("C10:send:{slot}:refused-within-limit:{}", if matches!(c.when, When::Before | When::Between | When::DuringOpen | When::AfterFirstExchange) { "limit-applied" } else { "before-settings" }),
+            format!("C10:send:{slot}:refused-within-limit:{}", if matches!(c.when, When::Before | When::Between | When::DuringOpen | When::AfterFirstExchange | When::Together) { "limit-applied" } else { "before-settings" }),
             format!("{ctx}: limit in force {in_force}; send returned {:?}", o.result),
         ));
     }
@@ -654,7 +691,7 @@ pub fn run(args: &Args) -> i32 {
     let thorough = args.tier == Tier::Thorough;
     let mut rep = Report::new("C10", args.tier, args.seed, "model_checking");
     rep.exhaustive = true;
-    rep.rule = "receive: limits {0, 1, 33, 34, 35, 64, 89, 100, 167, 16383, 2^62-1} x sections whose RFC size sweeps L-2..L+2 (built by stretching one value and by adding a field, so the per-field +32 is exercised) plus the empty and the minimal section, reference-encoded (literal representations) and injected by a scripted peer as request headers, response headers, request trailers, response trailers (client side: through the original SendRequest handle and through a clone of it); the 431 path with the client advertising {nothing, 41, 42, 43}. send: the same limits advertised by a scripted peer x application sections sweeping L-2..L+2 x {send_request, send_response, request trailers, response trailers} x SETTINGS delivered {before the stream exists (and applied), after the stream exists but before the attempt (and applied), while send_request is parked waiting for stream credit (and applied before the credit comes), after a first request of the connection has been answered (the attempt is made on a second request), after the attempt, never}; every HEADERS frame on the wire is decoded and measured by refimpl. states = distinct cases; non-trivial = cases at distance <= 2 from the limit.".into();
+    rep.rule = "receive: limits {0, 1, 33, 34, 35, 64, 89, 100, 167, 16383, 2^62-1} x sections whose RFC size sweeps L-2..L+2 (built by stretching one value and by adding a field, so the per-field +32 is exercised) plus the empty and the minimal section, reference-encoded (literal representations) and injected by a scripted peer as request headers, response headers, request trailers, response trailers (client side: through the original SendRequest handle and through a clone of it); the 431 path with the client advertising {nothing, 41, 42, 43}. send: the same limits advertised by a scripted peer x application sections sweeping L-2..L+2 x {send_request, send_response, request trailers, response trailers} x SETTINGS delivered {before the stream exists (and applied), after the stream exists but before the attempt (and applied), while send_request is parked waiting for stream credit (and applied before the credit comes), after a first request of the connection has been answered (the attempt is made on a second request), together with the request before the server first looks at the connection (request answered inline, accept() not polled again before the answer), after the attempt, never}; every HEADERS frame on the wire is decoded and measured by refimpl. states = distinct cases; non-trivial = cases at distance <= 2 from the limit.".into();
     rep.assumptions = vec![
         "refimpl::fields::section_size = sum(name + value + 32) (RFC 9114 4.2.2)".into(),
         "the smallest request h3 delivers (CONNECT + :authority) has size 89: smaller limits are exercised at the boundary through trailers (regular fields only) and with always-oversize heads".into(),
@@ -731,11 +768,11 @@ pub fn run(args: &Args) -> i32 {
                     if api_fields(slot, s, by_adding).is_none() {
                         continue;
                     }
-                    for when in [When::Before, When::Between, When::DuringOpen, When::AfterFirstExchange, When::After, When::Never] {
+                    for when in [When::Before, When::Between, When::DuringOpen, When::AfterFirstExchange, When::Together, When::After, When::Never] {
                         if when == When::DuringOpen && slot != Slot::Request {
                             continue;
                         }
-                        if when == When::AfterFirstExchange && !matches!(slot, Slot::Response | Slot::ResponseTrailers) {
+                        if matches!(when, When::AfterFirstExchange | When::Together) && !matches!(slot, Slot::Response | Slot::ResponseTrailers) {
                             continue;
                         }
                         scases.push(SendCase { slot, limit: l, size: s, by_adding, when });
@@ -807,6 +844,7 @@ pub fn replay(r: &Value) -> i32 {
                     "Between" => When::Between,
                     "DuringOpen" => When::DuringOpen,
                     "AfterFirstExchange" => When::AfterFirstExchange,
+                    "Together" => When::Together,
                     "After" => When::After,
                     _ => When::Never,
                 },
